@@ -724,6 +724,22 @@ func (tb *TB) atomOfRes(g Guard, res func(ssa.Value) ssa.Value) Atom {
 			pol = !pol
 			continue
 		}
+		// b == true, b != false, ... are b (or its negation)
+		if bo, ok := v.(*ssa.BinOp); ok && (bo.Op == token.EQL || bo.Op == token.NEQ) {
+			other, k := bo.X, bo.Y
+			if _, isC := other.(*ssa.Const); isC {
+				other, k = k, other
+			}
+			if kc, isC := k.(*ssa.Const); isC && kc.Value != nil && kc.Value.Kind() == constant.Bool {
+				if _, otherConst := other.(*ssa.Const); !otherConst {
+					if constant.BoolVal(kc.Value) != (bo.Op == token.EQL) {
+						pol = !pol
+					}
+					v = res(other)
+					continue
+				}
+			}
+		}
 		// a merge with one incoming value (the result of a spliced single-return helper)
 		if ph, ok := v.(*ssa.Phi); ok && len(ph.Edges) > 0 {
 			same := true
@@ -811,7 +827,13 @@ func (tb *TB) FactsAtRaw(b *ssa.BasicBlock) []Atom {
 		if c, isConst := g.Cond.(*ssa.Const); isConst && c.Value != nil && c.Value.Kind() == constant.Bool {
 			continue
 		}
-		out = append(out, tb.atomOf(g))
+		a := tb.atomOf(g)
+		// so does "a freshly made error is not nil" (the copy of the caller's error test behind
+		// `return errors.New(..)` in a spliced helper)
+		if a.Kind == "cmp" && a.Op == "!=" && a.Y != nil && a.Y.Op == "Nil" && a.X != nil && a.X.V != nil && a.X.Op != "Phi" && tb.p.definitelyNonNil(a.X.V, 0) {
+			continue
+		}
+		out = append(out, a)
 	}
 	return out
 }
